@@ -230,6 +230,11 @@ func init() {
 			}
 		}
 		for _, v := range c20ServerVariants {
+			if v == "open-vs-send" {
+				// two threads only: affordable one preemption deeper
+				c.DFS("c20/server/"+v, explore.Bounds{Preempt: c.Pick(2, 3), Dev: 1, POR: true, MaxExec: c.Pick(3000, 40000)})
+				continue
+			}
 			c.DFS("c20/server/"+v, b)
 		}
 		// workloads of the other properties, re-judged under the race monitor
